@@ -46,7 +46,7 @@ WORKERS = {"quick": 16, "thorough": 16}
 WATCHDOG = {"quick": 600, "thorough": 3000}
 
 KINDS = ["select", "select", "setop", "insert", "update", "delete", "create", "drop"]
-SPECIAL_KINDS = {"update-join", "for-update-of", "update-from", "dialect-sensitive-constants", "dialect-sensitive-set", "sign-twins", "mutable-builder", "mutable-builder-setop", "unnamed-source-by-replace"}
+SPECIAL_KINDS = {"update-join", "for-update-of", "update-from", "dialect-sensitive-constants", "dialect-sensitive-set", "sign-twins", "mutable-builder", "mutable-builder-setop", "unnamed-source-by-replace", "long-names"}
 
 
 def special_programs(d):
@@ -66,6 +66,20 @@ def special_programs(d):
     q = p.call(p.call(Cls(d), "from_", t1), "select", p.call(t1, "field", "a"))
     q = p.call(q, "for_update", of=("t1", "zeta", "alpha", "m_table", "b2"))
     out.append((p.prog(dialect=d, kind="for-update-of"), q.i))
+    # names beyond every engine's identifier limit (31, 64 and 130 characters) at every naming site
+    for n_ in (31, 64, 130):
+        p = P()
+        long_ = lambda stem: (stem + "_monthly_customer_invoice_totals_by_region_and_channel" * 3)[:n_]  # noqa: E731
+        ta = p.new("Table", "orders", alias=long_("ta"))
+        tb = p.new("Table", long_("tb"))
+        sub = p.call(p.call(p.call(Cls(d), "from_", tb), "select", p.call(p.call(tb, "field", "id"), "as_", long_("ci"))), "as_", long_("sq"))
+        e = p.call(p.bin("+", p.call(ta, "field", "amount"), 1), "as_", long_("ex"))
+        q = p.call(p.call(Cls(d), "with_", p.call(p.call(Cls(d), "from_", tb), "select", p.call(tb, "field", "id")), long_("ct")), "from_", ta)
+        q = p.call(p.call(q, "join", sub), "on", p.bin("==", p.call(ta, "field", "id"), p.call(sub, "field", long_("ci"))))
+        q = p.call(p.call(p.call(q, "select", e, p.attr(ta, "star"), p.call(sub, "field", long_("ci"))), "groupby", e), "orderby", e)
+        out.append((p.prog(dialect=d, kind="long-names"), q.i))
+        so = p.call(p.call(p.call(p.call(Cls(d), "from_", ta), "select", e), "union", p.call(p.call(Cls(d), "from_", tb), "select", p.call(p.call(tb, "field", "id"), "as_", long_("ex")))), "orderby", e)
+        out.append((p.prog(dialect=d, kind="long-names"), so.i))
     p = P()
     t1 = p.new("Table", "t1")
     t2 = p.new("Table", "t2")
@@ -238,6 +252,51 @@ def live_objects(env, tgt, rnd, limit=10):
     return [tgt] + sorted(idx[:limit - 1]) if not isinstance(env[tgt], Failed) else sorted(idx[:limit])
 
 
+class ambient:
+    """Interpreter state a render neither receives nor controls: precision and rounding of the thread's decimal context (every thread
+    has its own, so "from several threads" varies it), the process time zone.  A render inside must return what a render outside
+    returns.  (The context's `capitals` switch is not varied: str(Decimal) itself follows it - 1E+2 / 1e+2, the same SQL number - and
+    the property does not cover a caller who reconfigures the interpreter's number formatting between two renders.)"""
+
+    def __init__(self, rnd):
+        self.how = rnd.choice(["decimal-prec-2", "decimal-prec-6-round-up", "tz-kiritimati", "decimal-prec-2+tz"])
+
+    def __enter__(self):
+        import decimal as _d
+        import os as _os
+        import time as _t
+        self.lc = None
+        self.tz = None
+        if "decimal" in self.how:
+            self.lc = _d.localcontext()
+            c = self.lc.__enter__()
+            if "prec-2" in self.how:
+                c.prec = 2
+            elif "prec-6" in self.how:
+                c.prec = 6
+                c.rounding = _d.ROUND_UP
+            else:
+                c.capitals = 0
+        if "tz" in self.how:
+            self.tz = _os.environ.get("TZ")
+            _os.environ["TZ"] = "Pacific/Kiritimati"
+            _t.tzset()
+        return self
+
+    def __exit__(self, *a):
+        import os as _os
+        import time as _t
+        if self.lc is not None:
+            self.lc.__exit__(*a)
+        if "tz" in self.how:
+            if self.tz is None:
+                _os.environ.pop("TZ", None)
+            else:
+                _os.environ["TZ"] = self.tz
+            _t.tzset()
+        return False
+
+
 def run_hist(case, mon):
     prog, tgt = case["prog"], case["tgt"]
     rnd = random.Random("h:" + case["h"])
@@ -259,7 +318,13 @@ def run_hist(case, mon):
         i = tgt if (tgt in live and rnd.random() < 0.6) else rnd.choice(live)
         op = rnd.choice(OPS)
         cn = rnd.choice(cnames) if rnd.random() < 0.7 else env_dialect(prog)
-        out = do_op(env[i], op, ctxs[cn])
+        if rnd.random() < 0.25:
+            with ambient(rnd) as amb:
+                out = do_op(env[i], op, ctxs[cn])
+            mon.count("renders_under_changed_ambient_state")
+            mon.add("ambient_states", amb.how)
+        else:
+            out = do_op(env[i], op, ctxs[cn])
         mon.count("render_events")
         mon.count("op_" + op)
         key = (i, op, cn if op not in ("str", "hash", "repr") else "-")
@@ -406,6 +471,10 @@ def run_thread(case, mon):
 
     def work(tid):
         r = random.Random("w:%s:%d" % (case["h"], tid))
+        if tid % 2:
+            import decimal as _d
+            _d.getcontext().prec = 3  # (thread-local: every other worker thread has a decimal context of its own)
+            _d.getcontext().rounding = _d.ROUND_UP
         for _ in range(per):
             k = r.choice(keys)
             s0 = inj.switches
@@ -647,7 +716,7 @@ def run_case(case, mon):  # noqa: F811
 
 
 def FLOORS(tier):
-    return {"module_level_objects_compared": 200, "render_events": 5000, "repeat_comparisons": 500, "twin_fingerprint_comparisons": 1000,
+    return {"renders_under_changed_ambient_state": 2000, "module_level_objects_compared": 200, "render_events": 5000, "repeat_comparisons": 500, "twin_fingerprint_comparisons": 1000,
             "threaded_renders": 2000, "renders_overlapped_by_a_switch": 50, "child_interpreters": 8,
             "cross_process_digests": 2000}
 
